@@ -369,3 +369,10 @@ mod tests {
         assert_eq!(def.variants[1].to_string(), "1 [1]");
     }
 }
+
+// Verification hook (guard: cfg(kani), set by `cargo kani` only): Kani harnesses that need access to
+// private fields live in /verif and are included here.
+#[cfg(kani)]
+mod verif_kani {
+    include!(concat!(env!("VERIF_KANI_DIR"), "/truc_definition.rs"));
+}
